@@ -4,6 +4,7 @@ import ScrutModel.Model.Markdown
 
 * `number`, `Covers` – "the tokens partition the document";
 * `Doc`, `render`, `Doc.tests` – the generator's view of a well-formed document.
+* `Tail`, `tailTests`, `titleAfter` – … of a document whose last construct is unterminated.
 -/
 namespace Scrut.Markdown
 open Scrut.LineParser
@@ -257,5 +258,111 @@ def noFront : List Item → Bool
   | [] => true
   | .front _ :: _ => false
   | _ :: r => noFront r
+
+/-! ## documents that end in an unterminated construct (the statement of `C06_wellformed_tail`) -/
+
+/-- the title state behind the items: the title collected and not yet used by a test, and the run
+of title lines that directly precedes the end (the same bookkeeping as in `expectedTests`) -/
+def titleAfter (env : Env) : List Item → Option Line → List Line → Option Line × List Line
+  | [], title, tp => (title, tp)
+  | .prose l :: r, title, tp =>
+    match extractTitle env.isLetter l with
+    | some x => titleAfter env r (some (joinNl (tp ++ [x]))) (tp ++ [x])
+    | none => titleAfter env r title []
+  | .front _ :: r, title, tp => titleAfter env r title tp
+  | .foreign _ :: r, title, tp => titleAfter env r title tp
+  | .noCommand _ :: r, title, _ => titleAfter env r title []
+  | .block _ :: r, _, _ => titleAfter env r none []
+
+/-- the lines of a block whose closing line is missing -/
+def Block.openLines (b : Block) : List Line := b.opener :: b.body
+def Fenced.openLines (v : Fenced) : List Line := v.opener :: v.body
+
+/-- What the document ends in, behind its complete items: nothing, or one construct whose closing
+line is missing.  The records `Fenced` / `Block` are reused; their field `closer` is **not part of
+the document** (`Tail.lines` does not render it) and nothing is assumed about it. -/
+inductive Tail where
+  | none
+  /-- `---`, lines, end of the document -/
+  | openFront (body : List Line)
+  /-- foreign code block without closing line -/
+  | openForeign (v : Fenced)
+  /-- scrut block without a command and without closing line -/
+  | openNoCommand (v : Fenced)
+  /-- scrut block with a command, without closing line -/
+  | openBlock (b : Block)
+
+def Tail.lines : Tail → List Line
+  | .none => []
+  | .openFront body => frontMatterFence :: body
+  | .openForeign v => v.openLines
+  | .openNoCommand v => v.openLines
+  | .openBlock b => b.openLines
+
+/-- `Block.WF` without the conditions on the closing line -/
+def Block.OpenWF (env : Env) (b : Block) : Prop :=
+  extractCodeBlockStart b.opener = .ok (some (b.bt, b.language, b.config)) ∧
+  env.languages.contains b.language = true ∧
+  cfgAccepted env b.config ∧
+  (∀ x ∈ b.body, startsWith x b.bt = false) ∧
+  (∀ c ∈ b.comments, isComment c = true) ∧
+  (exitCodes b.after).length ≤ 1 ∧ (∀ e ∈ b.exps, env.expOk e = true) ∧
+  (match b.after with
+    | a :: _ => stripPrefix ['>', ' '] a = none
+    | [] => True)
+
+/-- `Fenced.ForeignWF` without the condition on the closing line (the language is still not empty:
+an unterminated bare fence is reported as `MissingLanguageSpecifier` like a closed one) -/
+def Fenced.OpenForeignWF (env : Env) (v : Fenced) : Prop :=
+  extractCodeBlockStart v.opener = .ok (some (v.bt, v.language, v.config)) ∧
+  env.languages.contains v.language = false ∧ v.language ≠ [] ∧
+  (∀ x ∈ v.body, startsWith x v.bt = false)
+
+/-- `Fenced.NoCommandWF` without the condition on the closing line -/
+def Fenced.OpenNoCommandWF (env : Env) (v : Fenced) : Prop :=
+  extractCodeBlockStart v.opener = .ok (some (v.bt, v.language, v.config)) ∧
+  env.languages.contains v.language = true ∧
+  cfgAccepted env v.config ∧
+  (∀ x ∈ v.body, startsWith x v.bt = false) ∧
+  (∀ c ∈ v.body, isComment c = true)
+
+/-- Well-formedness of the tail; `cs` = has content started before it.  The conditions of the
+closed item minus those on the closing line.  Unterminated front-matter is only front-matter while
+no content has started (`cs = false`; afterwards a line `---` is prose and the lines behind it are
+ordinary items). -/
+def Tail.WF (env : Env) (cs : Bool) : Tail → Prop
+  | .none => True
+  | .openFront body => cs = false ∧ (∀ x ∈ body, x ≠ frontMatterFence) ∧ env.docCfgOk (joinNl body) = true
+  | .openForeign v => v.OpenForeignWF env
+  | .openNoCommand v => v.OpenNoCommandWF env
+  | .openBlock b => b.OpenWF env
+
+/-- the front-matter text of the tail -/
+def Tail.docTexts : Tail → List Line
+  | .openFront body => [joinNl body]
+  | _ => []
+
+/-- The test of the tail: an unterminated scrut block with a command yields its test (the same
+fields as a closed one in `expectedTests`); the other tails yield none.  `li` = index of the first
+line of the tail, `title` = the title collected before it and not yet used. -/
+def tailTests (tail : Tail) (li : Nat) (title : Option Line) : List (TestCase Cfg) :=
+  match tail with
+  | .openBlock b =>
+    [{ title := title.getD []
+       command := b.cmd :: b.more
+       exitCode := b.exit
+       expectations := b.exps
+       lineNumber := li + 1 + b.comments.length + 1
+       config := some (stripBraces b.config) }]
+  | _ => []
+
+/-- the tail as an item: what would stand there had the construct been closed (by the line
+`closer` of the record, for the fenced kinds) -/
+def Tail.closed : Tail → List Item
+  | .none => []
+  | .openFront body => [.front body]
+  | .openForeign v => [.foreign v]
+  | .openNoCommand v => [.noCommand v]
+  | .openBlock b => [.block b]
 
 end Scrut.Markdown
